@@ -34,6 +34,16 @@ Judge(e) ==
                 LET exp == [W EXCEPT !.attrs = [t \in DOMAIN W.attrs |->
                                 IF t \in RanQ(want) THEN [W.attrs[t] EXCEPT ![e.attr] = e.value] ELSE W.attrs[t]]]
                 IN  Report(SameWorld(e.after, exp), e, "C18.bulkset", RanQ(want))
+          [] e.kind = "order" ->
+                /\ Report(e.ret = OrderBy(W, Cand(e), e.key, e.rev), e, "PROTO.order", <<e.ret, Cand(e)>>)
+                /\ Report(e.after = W, e, "PROTO.pure", 0)
+          [] e.kind = "column" ->
+                /\ Report(e.ret = Cand(e) /\ e.len = Len(Cand(e)), e, "PROTO.iter", 0)
+                /\ Report(Len(e.col) = Len(Cand(e)) /\ \A i \in DOMAIN e.col : SameValue(e.col[i], Column(W, Cand(e), e.attr)[i]),
+                          e, "PROTO.column", 0)
+          [] e.kind = "index" ->
+                LET pos == PositionIn(Cand(e), e.probe) IN
+                Report(IF pos = -1 THEN ~e.found ELSE (e.found /\ e.ret = <<pos>>), e, "PROTO.index", pos)
           [] e.kind = "removeall" ->
                 LET exp == AfterRemoveAll(W, e.list, e.qry) IN
                 /\ Report(e.ret = want, e, "C18.removed", <<e.ret, want>>)
